@@ -1,7 +1,7 @@
 (* Props/C12.v -- state-map duality and state constructors denote the documented states.  Property theorems only.
    The density matrix named by a tableau is rho = 2^-r prod_{a in [r,N)} (1+S_a)/2; at the level of this development a state is its signed stabilizer group, so
    "denotes the named density matrix" is stated through the active rows.  to_qutip and the dense matrices are compared numerically by the correspondence check (QuTiP trusted). *)
-From PC Require Import Model.Base Model.Pauli Model.CMap Model.Tableau Model.Spec Proofs.Transform Proofs.MaskFacts Proofs.TableauInv Proofs.ReachFacts.
+From PC Require Import Model.Base Model.Pauli Model.CMap Model.Tableau Model.Spec Proofs.Transform Proofs.MaskFacts Proofs.TableauInv Proofs.ReachFacts Proofs.ProjectCFacts.
 Open Scope Z_scope.
 
 (* converting a map to a state gives the state obtained by applying the map to |0...0>, signs included: every tableau row is the image of the corresponding row of |0..0> *)
@@ -48,6 +48,21 @@ Theorem C12_stabilizer_state_rejects_anticommuting : forall n stabs,
   (exists a b, In a stabs /\ In b stabs /\ acq (fst a) (fst b) = 1) -> stabilizer_state n stabs = None.
 Proof. exact stabilizer_state_rejects. Qed.
 Print Assumptions C12_stabilizer_state_rejects_anticommuting.
+(* the same for the projection exactly as the code runs it (stabilizer_project works on the string array only: every row position keeps its phase) *)
+Theorem C12_stabilizer_state_code_rows : forall n stabs t, Forall (fun a => length (fst a) = n /\ hermP a) stabs ->
+  (length stabs <= n)%nat -> stabilizer_state_c n stabs = Some t ->
+  (forall sel, length sel = length stabs -> fst (combine_row n sel stabs) = id_str n -> sel = repeat false (length stabs)) ->
+  rk t = (n - length stabs)%nat /\ firstn (length stabs) (skipn (rk t) (rows t)) = stabs.
+Proof. exact stabilizer_state_c_rows. Qed.
+Print Assumptions C12_stabilizer_state_code_rows.
+Theorem C12_stabilizer_state_code_valid : forall n stabs t, Forall (fun a => length (fst a) = n /\ hermP a) stabs ->
+  stabilizer_state_c n stabs = Some t -> tableau_ok n t.
+Proof. exact stabilizer_state_c_ok. Qed.
+Print Assumptions C12_stabilizer_state_code_valid.
+Theorem C12_stabilizer_state_code_rejects : forall n stabs,
+  (exists a b, In a stabs /\ In b stabs /\ acq (fst a) (fst b) = 1) -> stabilizer_state_c n stabs = None.
+Proof. exact stabilizer_state_c_rejects. Qed.
+Print Assumptions C12_stabilizer_state_code_rejects.
 (* GHZ: the documented generator list Z_i Z_{i+1}, X...X; decidable checks for N = 2,3,4 *)
 Example C12_ghz_3 :
   match stabilizer_state 3 [([(false,true);(false,true);(false,false)],0); ([(false,false);(false,true);(false,true)],0); ([(true,false);(true,false);(true,false)],0)] with
